@@ -1,14 +1,15 @@
-(* C14 phase 2: agreement of the two reader models on modules without blackbox instances (part A4) *)
+(* C14 phase 2: agreement of the two reader models on the documented subset (part A4) *)
 From stdpp Require Import strings gmap sets pretty.
 From CG Require Import Model.FastVerilog Proofs.FastVerilogProofs Gen.Gen_fastv.
-From CG Require Import Proofs.FvA0 Proofs.FvA1 Proofs.FvA2 Proofs.FvA3.
+From CG Require Import Proofs.FvA0 Proofs.FvA1 Proofs.FvA2 Proofs.FvP1 Proofs.FvE1 Proofs.FvE2 Proofs.FvE3 Proofs.FvE4 Proofs.FvA3 Proofs.FvE5 Proofs.FvE6 Proofs.FvE7.
 Open Scope string_scope.
 
 Section fold.
-  Variables (t0 t1 tx : string).
+  Variables (t0 t1 tx : string) (bbs : list bbdef).
   Hypothesis Hties : okname t0 ∧ okname t1 ∧ okname tx.
+  Hypothesis Hnd : dotted t0 = false ∧ dotted t1 = false ∧ dotted tx = false.
   Notation nm := (nm t0 t1). Notation norm := (norm t0 t1). Notation gate_view := (gate_view t0 t1).
-  Notation stp := (stp t0 t1). Notation rel := (rel t0 t1 tx). Notation tie := (tie t0 t1 tx).
+  Notation stp := (stp t0 t1 bbs). Notation views := (views t0 t1 bbs). Notation rel := (rel t0 t1 tx). Notation tie := (tie t0 t1 tx).
 
   Lemma mapM_full_opd ops : forallb const_ok ops = true → mapM_res (full_opd t0 t1 tx) ops = Ok (nm <$> ops).
   Proof.
@@ -32,18 +33,48 @@ Section fold.
       + intros f Hf%cancel_sub. auto.
   Qed.
 
+  Lemma nm_nodot o : (∀ s, o = ONet s → dotted s = false) → dotted (nm o) = false.
+  Proof. destruct o as [s|s]; simpl; [auto|]. intros _. destruct Hnd as (? & ? & ?). by case_bool_decide. Qed.
+  Lemma norm_nodot t l : (∀ f, f ∈ l → dotted f = false) → ∀ f, f ∈ (norm t l).2 → dotted f = false.
+  Proof.
+    intros Hl. unfold FvA3.norm. destruct (is_parity t); [|done]. case_bool_decide; simpl.
+    - intros f ->%elem_of_list_singleton. destruct Hnd as (? & ? & ?). by case_bool_decide.
+    - intros f Hf%cancel_sub. auto.
+  Qed.
+  Definition netok (s : string) : Prop := okname s ∧ dotted s = false.
   Definition good (it : item) : Prop :=
     match it with
-    | IInput ns => ∀ n, n ∈ ns → okname n ∧ ¬ tie n
+    | IInput ns => ∀ n, n ∈ ns → netok n ∧ ¬ tie n
     | IOutput _ | IWire _ => True
     | IGate t _ ops => ∃ o ins, ops = ONet o :: ins ∧ t ∈ primitive_gates ∧ forallb const_ok ins = true ∧
-                        (t ∈ add_single_fanin → length ins ≤ 1) ∧ okname o ∧ ¬ tie o ∧ ∀ s, ONet s ∈ ins → okname s
-    | IAssign l r => const_ok r = true ∧ okname l ∧ ¬ tie l ∧ ∀ s, r = ONet s → okname s
-    | IInst _ _ _ => False
+                        (t ∈ add_single_fanin → length ins ≤ 1) ∧ netok o ∧ ¬ tie o ∧ ∀ s, ONet s ∈ ins → netok s
+    | IAssign l r => const_ok r = true ∧ netok l ∧ ¬ tie l ∧ ∀ s, r = ONet s → netok s
+    | IInst bb inst conns => ∃ d, find_bb_first bbs bb = Some d ∧ find_bb_last bbs bb = Some d ∧ netok inst ∧ bb_in d ## bb_out d ∧
+                        NoDup (fst <$> conns) ∧ (∀ p o, (p, o) ∈ conns → p ∈ bb_in d ∨ p ∈ bb_out d) ∧
+                        (∀ p o, (p, Some o) ∈ conns → const_ok o = true ∧ (p ∉ bb_in d → is_net o = true) ∧
+                                                      ∀ s, o = ONet s → netok s ∧ ¬ tie s)
     end.
   Definition it_inputs (it : item) : list string := match it with IInput ns => ns | _ => [] end.
-  Definition it_driver (it : item) : list string := match gate_view it with Some (o, _) => [o] | None => [] end.
+  Definition it_driver (it : item) : list string := fst <$> views it.
+  Definition it_insts (it : item) : list string := match it with IInst _ inst _ => [inst] | _ => [] end.
 
+  (* shape of the state: node types, and where dotted names (pins) may occur *)
+  Record sinv (s : st) (B : gset string) : Prop := {
+    si_ty : ∀ o t fis, sG s !! o = Some (t, fis) → t ∈ primitive_gates ∨ dotted o = true;
+    si_fis : ∀ o t fis f, sG s !! o = Some (t, fis) → f ∈ fis → dotted f = false ∨ ∃ i' q, f = pin i' q ∧ i' ∈ B ∧ dotted i' = false;
+    si_U : ∀ u, u ∈ sU s → dotted u = false;
+    si_I : ∀ u, u ∈ sI s → dotted u = false }.
+  Lemma sinv_mono s B B' : B ⊆ B' → sinv s B → sinv s B'.
+  Proof. intros HB [H1 H2 H3 H4]. split; try done. intros o t fis f HG Hf. destruct (H2 o t fis f HG Hf) as [?|(i' & q & ? & ? & ?)]; [by left|right]. exists i', q. set_solver. Qed.
+  Lemma look_notbb s B f i : sinv s B → dotted f = false → look t0 t1 tx s f = Some i → n_ty i ≠ BbIn ∧ n_ty i ≠ BbOut.
+  Proof.
+    intros Hs Hf. unfold FvA3.look. destruct (decide (f = t0)); [by intros [= <-]|]. destruct (decide (f = t1)); [by intros [= <-]|].
+    destruct (decide (f = tx)); [by intros [= <-]|]. destruct (sG s !! f) as [[t fis]|] eqn:E.
+    - intros [= <-]. simpl. destruct (si_ty s B Hs f t fis E) as [Ht|Hd]; [|congruence]. split; intros ->; vm_compute in Ht; set_solver.
+    - destruct (decide (f ∈ sI s)); [by intros [= <-]|]. destruct (decide (f ∈ sU s)); [by intros [= <-]|done].
+  Qed.
+  Lemma tie_nodot m : tie m → dotted m = false.
+  Proof. destruct Hnd as (? & ? & ?). unfold FvA3.tie. intros [->|[->| ->]]; done. Qed.
   Lemma inputs_step ns : ∀ g s, rel g s → (∀ n, n ∈ ns → okname n ∧ ¬ tie n ∧ sG s !! n = None) →
     ∃ g', foldl (λ st n, rbind st (λ g, add_node g n Input [])) (Ok g) ns = Ok g' ∧
           rel g' {| sG := sG s; sI := sI s ∪ list_to_set ns; sU := sU s |}.
@@ -56,36 +87,109 @@ Section fold.
       exists g'. split; [done|]. cbn [sG sI sU] in Hrel'. rewrite list_to_set_cons, (assoc_L (∪)). done.
   Qed.
 
-  Lemma Gok_insert s o t fis I U : Gok s → t ∈ primitive_gates → Gok {| sG := <[o := (t, fis)]> (sG s); sI := I; sU := U |}.
-  Proof. intros HG Ht o' t' fis'. cbn [sG]. intros [[_ [= <- _]]|[_ H]]%lookup_insert_Some; [done|by eapply HG]. Qed.
-
-  Lemma full_item_step bbs C s it : rel (c_g C) s → Gok s → good it →
-    (∀ o, o ∈ it_driver it → sG s !! o = None ∧ o ∉ sI s) → (∀ n, n ∈ it_inputs it → sG s !! n = None) →
-    ∃ C', full_item t0 t1 tx bbs C it = Ok C' ∧ rel (c_g C') (stp s it) ∧ Gok (stp s it) ∧ c_bbs C' = c_bbs C.
+  Lemma sinv_gate s B o t fis : sinv s B → t ∈ primitive_gates → (∀ f, f ∈ fis → dotted f = false) →
+    sinv {| sG := <[o := (t, fis)]> (sG s); sI := sI s; sU := sU s ∪ list_to_set fis |} B.
   Proof.
-    intros Hrel HG Hgood Hdrv Hin. destruct it as [ns|ns|ns|t inst ops|l r|bb inst conns]; cbn [good] in Hgood.
+    intros [H1 H2 H3 H4] Ht Hf. split; cbn [sG sI sU]; [| | |done].
+    - intros o' t' fis' [[_ [= <- _]]|[_ H]]%lookup_insert_Some; [by left|by eapply H1].
+    - intros o' t' fis' f [[_ [= _ <-]]|[_ H]]%lookup_insert_Some Hin; [left; auto|by eapply H2].
+    - intros u [?|?%elem_of_list_to_set]%elem_of_union; auto.
+  Qed.
+
+  Lemma stp_output s ns : stp s (IOutput ns) = s.
+  Proof. destruct s. unfold FvA3.stp. simpl. f_equal. set_solver. Qed.
+  Lemma stp_wire s ns : stp s (IWire ns) = s.
+  Proof. destruct s. unfold FvA3.stp. simpl. f_equal. set_solver. Qed.
+
+  Lemma full_item_step C s it : rel (c_g C) s → sinv s (dom (c_bbs C)) → good it → NoDup (it_driver it) →
+    (∀ o, o ∈ it_driver it → sG s !! o = None ∧ o ∉ sI s) → (∀ n, n ∈ it_inputs it → sG s !! n = None) →
+    (∀ i, i ∈ it_insts it → i ∉ dom (c_bbs C)) →
+    ∃ C', full_item t0 t1 tx bbs C it = Ok C' ∧ rel (c_g C') (stp s it) ∧ sinv (stp s it) (dom (c_bbs C')) ∧
+          dom (c_bbs C') = dom (c_bbs C) ∪ list_to_set (it_insts it).
+  Proof.
+    intros Hrel HG Hgood Hndk Hdrv Hin Hinst. destruct it as [ns|ns|ns|t inst ops|l r|bb inst conns]; cbn [good] in Hgood.
     - cbn [full_item stp]. destruct (inputs_step ns (c_g C) s Hrel) as (g' & -> & Hrel').
-      { intros n Hn. destruct (Hgood n Hn). split; [done|]. split; [done|]. apply Hin. done. }
-      eexists. split; [done|]. split; [done|]. split; [|done]. intros o t fis. cbn [sG]. apply HG.
-    - eexists. split; [done|]. done.
-    - eexists. split; [done|]. done.
-    - destruct Hgood as (o & ins & -> & Ht & Hc & Hsf & Hon & Hnt & Hnets).
+      { intros n Hn. destruct (Hgood n Hn) as [[? ?] ?]. split; [done|]. split; [done|]. apply Hin. done. }
+      eexists. split; [done|]. split; [done|]. cbn [c_bbs with_g it_insts]. split; [|set_solver]. destruct HG as [H1 H2 H3 H4]. split; try done.
+      cbn [sI]. intros u [?|Hu%elem_of_list_to_set]%elem_of_union; [auto|]. by destruct (Hgood u Hu) as [[? ?] ?].
+    - eexists. split; [done|]. rewrite stp_output. cbn [it_insts]. split; [done|]. split; [done|set_solver].
+    - eexists. split; [done|]. rewrite stp_wire. cbn [it_insts]. split; [done|]. split; [done|set_solver].
+    - destruct Hgood as (o & ins & -> & Ht & Hc & Hsf & [Hon Hod] & Hnt & Hnets).
       cbn [full_item]. rewrite (mapM_full_opd (ONet o :: ins)) by (cbn [forallb const_ok]; done). cbn [rbind fmap list_fmap FvA3.nm].
       destruct (norm_facts t (nm <$> ins) Ht) as (Ht' & Hsf' & Hok').
       { rewrite fmap_length. done. }
-      { intros f (x & -> & Hx)%elem_of_list_fmap. apply nm_okname. intros s' ->. auto. }
+      { intros f (x & -> & Hx)%elem_of_list_fmap. apply nm_okname. intros s' ->. by destruct (Hnets s' Hx). }
+      assert (Hdot' : ∀ f, f ∈ (norm t (nm <$> ins)).2 → dotted f = false).
+      { apply norm_nodot. intros f (x & -> & Hx)%elem_of_list_fmap. apply nm_nodot. intros s' ->. by destruct (Hnets s' Hx). }
       unfold FvA3.norm in *. destruct (if is_parity t then _ else _) as [t' ins'] eqn:En. cbn [fst snd] in *.
-      destruct (Hdrv o) as [HGo HIo]. { unfold it_driver. cbn [FvA3.gate_view]. by left. }
-      destruct (gate_step t0 t1 tx (c_g C) s o t' ins' Hrel HG Ht' Hsf' Hon Hok' Hnt HGo HIo) as (g' & -> & Hrel').
-      eexists. split; [done|]. cbn [stp FvA3.stp FvA3.gate_view]. unfold FvA3.norm. rewrite En. split; [done|]. split; [|done]. by apply Gok_insert.
-    - destruct Hgood as (Hc & Hon & Hnt & Hnets). cbn [full_item].
+      destruct (Hdrv o) as [HGo HIo]. { unfold it_driver. cbn [FvA3.views FvA3.gate_view]. unfold FvA3.norm. rewrite En. by left. }
+      destruct (gate_step t0 t1 tx (c_g C) s o t' ins' Hrel) as (g' & -> & Hrel'); try done.
+      { intros f i Hf. apply (look_notbb s _ f i HG). auto. }
+      eexists. split; [done|]. unfold FvA3.stp. cbn [FvA3.views FvA3.uses FvA3.gate_view foldl fst snd]. unfold FvA3.norm. rewrite En. cbn [foldl fst snd].
+      split; [done|]. cbn [c_bbs with_g it_insts]. split; [by apply sinv_gate|set_solver].
+    - destruct Hgood as (Hc & [Hon Hod] & Hnt & Hnets). cbn [full_item].
       pose proof (mapM_full_opd [r]) as Hm. cbn [forallb mapM_res] in Hm. rewrite Hc in Hm. specialize (Hm eq_refl).
       destruct (full_opd t0 t1 tx r) as [e| | |] eqn:Er; try done. cbn [rbind fmap list_fmap] in Hm. injection Hm as ->. cbn [rbind].
       rewrite bool_decide_eq_false_2 by (unfold FvA3.tie in Hnt; set_solver).
-      destruct (Hdrv l) as [HGo HIo]. { unfold it_driver. cbn [FvA3.gate_view]. by left. }
-      destruct (gate_step t0 t1 tx (c_g C) s l Buf [nm r] Hrel HG) as (g' & -> & Hrel'); try done.
-      { vm_compute. set_solver. } { intros f ->%elem_of_list_singleton. by apply nm_okname. }
-      eexists. split; [done|]. cbn [stp FvA3.stp FvA3.gate_view]. split; [done|]. split; [|done]. apply Gok_insert; [done|]. vm_compute. set_solver.
-    - done.
+      destruct (Hdrv l) as [HGo HIo]. { unfold it_driver. cbn [FvA3.views FvA3.gate_view]. by left. }
+      assert (Hrd : dotted (nm r) = false) by (apply nm_nodot; intros s' ->; by destruct (Hnets s' eq_refl)).
+      destruct (gate_step t0 t1 tx (c_g C) s l Buf [nm r] Hrel) as (g' & -> & Hrel'); try done.
+      { intros f i ->%elem_of_list_singleton. by apply (look_notbb s _ _ i HG). }
+      { vm_compute. set_solver. } { intros f ->%elem_of_list_singleton. apply nm_okname. intros s' ->. by destruct (Hnets s' eq_refl). }
+      eexists. split; [done|]. unfold FvA3.stp. cbn [FvA3.views FvA3.uses FvA3.gate_view foldl fst snd]. split; [done|]. cbn [c_bbs with_g it_insts].
+      split; [|set_solver]. apply sinv_gate; [done|vm_compute; set_solver|]. by intros f ->%elem_of_list_singleton.
+    - destruct Hgood as (d & Hfirst & Hlast & [Hion Hiod] & Hdisj & Hcn & Hpins & Hcs).
+      assert (Hnew : inst ∉ dom (c_bbs C)) by (apply Hinst; by left).
+      set (dict := conn_dict t0 t1 conns).
+      assert (Hdict : ∀ p n, (p, n) ∈ dict → netok n ∧ (p ∉ bb_in d → ¬ tie n ∧ n ∈ it_driver (IInst bb inst conns))).
+      { intros p n (o & Hin' & ->)%conn_dict_elem. destruct (Hcs p o Hin') as (Hc & Hnet & Hs). split.
+        - split; [apply nm_okname; intros s' ->; by destruct (Hs s' eq_refl) as [[? ?] ?]|apply nm_nodot; intros s' ->; by destruct (Hs s' eq_refl) as [[? ?] ?]].
+        - intros Hp. specialize (Hnet Hp). destruct o as [s'|s']; [|done]. destruct (Hs s' eq_refl) as [_ Hnt]. split; [done|].
+          unfold it_driver. cbn [FvA3.views]. rewrite Hfirst. unfold FvA3.inst_views. rewrite fmap_app. apply elem_of_app. right.
+          apply elem_of_list_fmap. exists (s', (Buf, [pin inst p])). split; [done|]. apply elem_of_list_fmap. exists (p, s'). split; [done|].
+          apply elem_of_list_filter. split; [done|]. apply conn_dict_elem. eauto. }
+      destruct (inst_step t0 t1 tx bbs s C bb inst conns d Hrel) as (C' & HC' & Hrel' & Hbbs).
+      { split; try done.
+        - intros p o Hin'. by destruct (Hcs p o Hin').
+        - intros p Hp. assert (Hk : pin inst p ∈ it_driver (IInst bb inst conns)).
+          { unfold it_driver. cbn [FvA3.views]. rewrite Hfirst. unfold FvA3.inst_views. rewrite fmap_app. apply elem_of_app. left.
+            rewrite <- list_fmap_compose. apply elem_of_list_fmap.
+            destruct Hp as [Hp|Hp]; [exists (p, BbIn)|exists (p, BbOut)]; (split; [done|]); apply pin_list_elem; auto. }
+          assert (Hnt : ¬ tie (pin inst p)). { intros Ht%tie_nodot. by rewrite pin_dotted in Ht. }
+          split; [|done]. rewrite look_nontie by done. unfold look_rest. destruct (Hdrv _ Hk) as [-> HI]. rewrite decide_False by done.
+          rewrite decide_False; [done|]. intros Hu. pose proof (si_U s _ HG _ Hu) as Hd. by rewrite pin_dotted in Hd.
+        - intros o t fis q HGo Hf. destruct (si_fis s _ HG o t fis _ HGo Hf) as [Hd|(i' & q' & Heq & Hi' & Hdi')]; [by rewrite pin_dotted in Hd|].
+          apply pin_inj2 in Heq as [-> _]; done.
+        - intros p n Hin'. destruct (Hdict p n Hin') as ([Hok Hdot] & Ho). split; [done|]. split; [intros q ->; by rewrite pin_dotted in Hdot|]. split.
+          + intros _ i. by apply (look_notbb s _ n i HG).
+          + intros Hp. destruct (Ho Hp) as [Hnt Hk]. split; [done|]. by apply Hdrv.
+        - intros p n p' n' H1 H2 Hp Hp' Hne ->. unfold it_driver in Hndk. cbn [FvA3.views] in Hndk. rewrite Hfirst in Hndk. unfold FvA3.inst_views in Hndk.
+          rewrite fmap_app in Hndk. apply NoDup_app in Hndk as (_ & _ & Hndk). rewrite <- list_fmap_compose in Hndk.
+          assert (Heq : (p, n') = (p', n')); [|by injection Heq].
+          apply (nodup_fmap_inj_on _ _ _ _ Hndk); [by apply elem_of_list_filter|by apply elem_of_list_filter|done]. }
+      exists C'. split; [done|]. split; [done|]. cbn [it_insts]. rewrite Hbbs, dom_insert_L. split; [|set_solver].
+      (* the shape invariant of the new state *)
+      unfold FvA3.stp. cbn [FvA3.views FvA3.uses]. rewrite Hfirst. fold dict. destruct HG as [H1 H2 H3 H4]. split; cbn [sG sI sU]; [| | |done].
+      + intros o t fis Ho. destruct (decide (o ∈ fst <$> inst_views t0 t1 d inst conns)) as [Hk|Hk].
+        * apply elem_of_list_fmap in Hk as ([k v] & -> & Hkv). unfold FvA3.inst_views in Hkv. fold dict in Hkv. apply elem_of_app in Hkv as [Hkv|Hkv].
+          -- apply elem_of_list_fmap in Hkv as ([p' t'] & [= -> ->] & _). right. apply pin_dotted.
+          -- apply elem_of_list_fmap in Hkv as ([p' n'] & [= -> ->] & Hfil). cbn [fst snd] in *. left.
+             assert (Hndk' : NoDup (fst <$> inst_views t0 t1 d inst conns)).
+             { unfold it_driver in Hndk. cbn [FvA3.views] in Hndk. by rewrite Hfirst in Hndk. }
+             rewrite (foldl_ins_in _ (sG s) n' (Buf, [pin inst p']) Hndk') in Ho.
+             ++ injection Ho as <- _. vm_compute. set_solver.
+             ++ unfold FvA3.inst_views. fold dict. apply elem_of_app. right. apply elem_of_list_fmap. exists (p', n'). split; [done|]. exact Hfil.
+        * rewrite foldl_ins_other in Ho by done. by eapply H1.
+      + intros o t fis f Ho Hf. destruct (decide (o ∈ fst <$> inst_views t0 t1 d inst conns)) as [Hk|Hk].
+        * assert (Hndk' : NoDup (fst <$> inst_views t0 t1 d inst conns)).
+          { unfold it_driver in Hndk. cbn [FvA3.views] in Hndk. by rewrite Hfirst in Hndk. }
+          apply elem_of_list_fmap in Hk as ([k v] & -> & Hkv). cbn [fst snd] in *. rewrite (foldl_ins_in _ (sG s) k v Hndk' Hkv) in Ho. injection Ho as ->.
+          unfold FvA3.inst_views in Hkv. fold dict in Hkv. apply elem_of_app in Hkv as [Hkv|Hkv].
+          -- apply elem_of_list_fmap in Hkv as ([p' t'] & [= _ -> ->] & _). apply elem_of_list_fmap in Hf as ([p'' n''] & -> & [_ Hin']%elem_of_list_filter).
+             left. by destruct (Hdict p'' n'' Hin') as [[? ?] _].
+          -- apply elem_of_list_fmap in Hkv as ([p' n'] & [= _ -> ->] & _). apply elem_of_list_singleton in Hf as ->. right. exists inst, p'. split; [done|]. split; [set_solver|done].
+        * rewrite foldl_ins_other in Ho by done. destruct (H2 o t fis f Ho Hf) as [?|(i' & q & ? & ? & ?)]; [by left|right]. exists i', q. set_solver.
+      + intros u [?|Hu%elem_of_list_to_set]%elem_of_union; [auto|]. apply elem_of_list_fmap in Hu as ([p' n'] & -> & [_ Hin']%elem_of_list_filter).
+        by destruct (Hdict p' n' Hin') as [[? ?] _].
   Qed.
 End fold.
